@@ -46,6 +46,12 @@ def ty_src(t):
         return f"Enum[{t[1]}]"
     if k == "EnumVals":
         return f"Enum(values={t[1]!r})"
+    if k == "EnumSet":          # values given as a set literal (iteration order depends on PYTHONHASHSEED)
+        return "Enum(values={" + ", ".join(repr(v) for v in t[1]) + "})"
+    if k == "EnumTuple":
+        return f"Enum(values={tuple(t[1])!r})"
+    if k == "EnumItem":         # Enum['a', 'b']
+        return "Enum[" + ", ".join(repr(v) for v in t[1]) + "]"
     if k == "Ref":
         return t[1]
     if k == "py":
@@ -112,7 +118,7 @@ def valid_src(t, mod):
         return None if None in (kk, vv) or t[1][0] not in ("String", "Integer", "py") else "{" + kk + ": " + vv + "}"
     if k == "Enum":
         return f"list({t[1]})[0]"
-    if k == "EnumVals":
+    if k in ("EnumVals", "EnumSet", "EnumTuple", "EnumItem"):
         return repr(t[1][0])
     if k == "Ref":
         return f"_mk_{t[1]}()"
@@ -643,6 +649,177 @@ def const_cases(rng, tier):
     return cases
 
 
+# ------------------------------------------------------------------ Enum fields over plain values (literals in the stub)
+
+HOSTILE_STRINGS = ['a"b', "it's", "back\\slash", "line\nbreak", "\u00e9t\u00e9", "tab\there", "", " ", '"""', "x'\"y", "#hash",
+                   '\\"', "]", "a, b", "None", "\r"]
+WORDS = ["shipped", "pending", "delivered", "returned", "packed", "lost", "open", "closed", "alpha", "beta", "gamma"]
+
+
+def enumvals_cases(rng, tier):
+    """Enum(values=...) fields whose values end up (or may end up) as literals inside the stub: every hostile string
+    (quotes, backslashes, line breaks, non-ASCII, brackets, commas) as list / tuple / Enum[...] values, top-level and
+    nested; values given as a SET of several strings, generated under other PYTHONHASHSEEDs as well"""
+    st = lambda name, fields, **kw: dict({"kind": "struct", "name": name, "style": "annot",
+                                         "bases": [{"b": "Structure"}], "fields": fields}, **kw)
+    cases = []
+    for i, h in enumerate(HOSTILE_STRINGS):
+        kind = ["EnumVals", "EnumTuple", "EnumItem"][i % 3]
+        items = [st("EA", [{"name": "v", "ty": [kind, [h, "plain"]]},
+                           {"name": "w", "ty": ["Array", ["EnumVals", [h]]]},
+                           {"name": "m", "ty": ["Map", ["String"], ["EnumVals", ["k", h]]]},
+                           {"name": "n", "ty": ["EnumVals", [1, 2]]},
+                           {"name": "o", "ty": ["AnyOf", ["EnumVals", [h, 3]], ["None"]]}], optional=["w", "m"]),
+                 st("EB", [{"name": "x", "ty": ["String"]}], bases=[{"b": "Partial", "of": "EA"}])]
+        cases.append({"suite": "stub", "mod": {"items": items}, "apd": True, "dflt": True, "seeds": [],
+                      "enumvals": "hostile:" + kind})
+    for k in range(2 if tier == "quick" else 6):
+        vals = rng.sample(WORDS, 6)
+        items = [st("ES", [{"name": "status", "ty": ["EnumSet", vals]},
+                           {"name": "tags", "ty": ["Array", ["EnumSet", rng.sample(WORDS, 5)]]},
+                           {"name": "nums", "ty": ["EnumSet", [3, 1, 2]]}], optional=["tags"])]
+        cases.append({"suite": "stub", "mod": {"items": items}, "apd": True, "dflt": True,
+                      "seeds": [1, 4242] if tier == "quick" else [1, 2, 3, 4242], "enumvals": "set-valued"})
+    return cases
+
+
+# ------------------------------------------------------------------ shared ancestors (diamonds; C3 linearisation)
+
+DIAMOND_SHAPES = [
+    [("A", []), ("B", ["A"]), ("C", ["A"]), ("D", ["B", "C"])],
+    [("A", []), ("B", ["A"]), ("C", ["A"]), ("D", ["B", "C"]), ("E", ["D"])],
+    [("A", []), ("B", ["A"]), ("C", ["A"]), ("D", ["C", "B"]), ("E", ["D", "A"])],
+    [("A", []), ("A2", []), ("B", ["A", "A2"]), ("C", ["A2"]), ("D", ["B", "C"])],
+    [("A", []), ("B", ["A"]), ("C", ["B"]), ("D", ["B"]), ("E", ["C", "D"])],
+    [("A", []), ("B", ["A"]), ("C", ["A"]), ("D", ["A"]), ("E", ["B", "C", "D"])],
+]
+
+
+def diamond_cases(rng, tier):
+    """hierarchies with a shared Structure ancestor: own fields in every form, overriding along one branch,
+    flags on any class; plus the fixed family in which one branch redeclares an ancestor's Constant as a Field"""
+    cases = []
+    st = lambda name, bases, fields, **kw: dict({"kind": "struct", "name": name, "style": "annot",
+                                                "bases": [{"b": "cls", "name": b} for b in bases] or [{"b": "Structure"}],
+                                                "fields": fields}, **kw)
+    # the constant-shadowing family (finding names-mismatch:constant-shadowed-in-diamond)
+    for zform in ("req", "opt"):
+        items = [st("Y", [], [{"name": "n", "const": "3", "ty": ["Anything"]}, {"name": "y", "ty": ["Integer"]}]),
+                 st("P", ["Y"], [{"name": "p", "ty": ["Integer"]}]),
+                 st("Z", ["Y"], [{"name": "n", "ty": ["String"]}, {"name": "z", "ty": ["Integer"]}],
+                    **({"optional": ["n"]} if zform == "opt" else {})),
+                 st("B", ["P", "Z"], [{"name": "b", "ty": ["Integer"]}]),
+                 st("D", ["B"], [{"name": "d", "ty": ["Integer"]}]),
+                 st("D2", ["B"], [{"name": "d", "ty": ["Integer"]}], addl=False)]
+        cases.append({"suite": "stub", "mod": {"items": items}, "apd": True, "dflt": True, "seeds": [],
+                      "diamond": "constant-shadowed:" + zform})
+    n = 45 if tier == "quick" else 700
+    pool = [x for x in NAMES if x not in ("source_object", "ignore_props", "kw", "cls_", "self_")]
+    for k in range(n):
+        shape = rng.choice(DIAMOND_SHAPES)
+        names = rng.sample(pool, len(pool))
+        info = {}       # class -> {field: form} as inherited view (first base wins, own overrides)
+        items = []
+        for cname, bases in shape:
+            inherited = {}
+            for b in bases:
+                for fn, form in info[b].items():
+                    inherited.setdefault(fn, form)
+            fields, optional, required = [], [], None
+            for _ in range(rng.choice([0, 1, 1, 2, 2, 3]) if bases else rng.choice([1, 2, 3])):
+                fn = names.pop()
+                form = rng.choice(["req", "req", "opt", "dflt", "const", "typing-opt", "optshape"])
+                f = {"name": fn, "ty": [rng.choice(["String", "Integer", "Float", "Boolean"])]}
+                if form == "const":
+                    f = {"name": fn, "const": rng.choice(["3", "'c'", "0"]), "ty": ["Anything"]}
+                elif form == "dflt":
+                    f["default"] = {"String": "'d'", "Integer": "5", "Float": "2.5", "Boolean": "False"}[f["ty"][0]]
+                elif form == "opt":
+                    optional.append(fn)
+                elif form == "typing-opt":
+                    f["ty"] = ["pyopt", ["py", "int"]]
+                elif form == "optshape":
+                    f["ty"] = ["AnyOf", f["ty"], ["None"]]
+                    form = "req"
+                fields.append(f)
+                inherited[fn] = form
+            ov = [fn for fn, form in inherited.items() if form in ("req", "opt") and fn not in [f["name"] for f in fields]]
+            if bases and ov and rng.random() < 0.45:
+                fn = rng.choice(sorted(ov))
+                fields.append({"name": fn, "ty": [rng.choice(["String", "Integer"])]})
+                if inherited[fn] == "opt" and rng.random() < 0.5:
+                    optional.append(fn)
+                else:
+                    inherited[fn] = "req"
+            it = st(cname, bases, fields)
+            if optional:
+                it["optional"] = optional
+            elif fields and rng.random() < 0.2:
+                plain = [f["name"] for f in fields if f.get("const") is None and f.get("default") is None
+                         and f["ty"][0] != "pyopt"]
+                it["required"] = [x for x in plain if rng.random() < 0.6]
+                for x in plain:
+                    if x not in it["required"] and inherited.get(x) == "req" and x in ov:
+                        it["required"].append(x)
+            if rng.random() < 0.3:
+                it["addl"] = rng.random() < 0.5
+            info[cname] = inherited
+            items.append(it)
+        apd = rng.random() < 0.7
+        cases.append({"suite": "stub", "mod": {"items": items}, "apd": apd, "dflt": apd, "seeds": [],
+                      "diamond": "shape%d" % DIAMOND_SHAPES.index(shape)})
+    return cases
+
+
+# ------------------------------------------------------------------ stub default != runtime default; inherited __init__
+
+def apd_cases(rng, tier):
+    """the stub generated with another additional_properties_default than the runtime's: chains in which the flag is
+    declared on the class, only on a base, or nowhere (there the `**` clause is `apd` by configuration)"""
+    st = lambda name, bases, fields, **kw: dict({"kind": "struct", "name": name, "style": "annot",
+                                                "bases": [{"b": "cls", "name": b} for b in bases] or [{"b": "Structure"}],
+                                                "fields": fields}, **kw)
+    cases = []
+    for dflt in (True, False):
+        for flag in (True, False):
+            items = [st("N0", [], [{"name": "a", "ty": ["String"]}]),
+                     st("N1", ["N0"], [{"name": "b", "ty": ["Integer"], "default": "1"}]),
+                     st("F0", [], [{"name": "a", "ty": ["String"]}], addl=flag),
+                     st("F1", ["F0"], [{"name": "b", "ty": ["Integer"]}], optional=["b"]),
+                     st("F2", ["F1"], [{"name": "c", "ty": ["String"]}], addl=not flag),
+                     st("F3", ["F2", "N0"] if False else ["F2"], [])]
+            cases.append({"suite": "stub", "mod": {"items": items}, "apd": not dflt, "dflt": dflt, "seeds": [],
+                          "family": "apd-differs"})
+    for k in range(6 if tier == "quick" else 60):
+        spec = ModGen(rng, tier).module(k)
+        dflt = rng.random() < 0.5
+        cases.append({"suite": "stub", "mod": spec, "apd": not dflt, "dflt": dflt, "seeds": [], "family": "apd-differs"})
+    return cases
+
+
+def inh_init_cases(rng, tier):
+    """subclasses of a Structure class with a user-written __init__ (the stub generates a field-based __init__ for
+    them; compared with inspect.signature(cls))"""
+    st = lambda name, bases, fields, **kw: dict({"kind": "struct", "name": name, "style": "annot",
+                                                "bases": [{"b": "cls", "name": b} for b in bases] or [{"b": "Structure"}],
+                                                "fields": fields}, **kw)
+    cases = []
+    for kw in (False, True):
+        for extra in (False, True):
+            ci = {"params": [["a", None], ["o", "None"]] + ([["extra_flag", "None"]] if extra else []),
+                  "forward": ["a", "o"], "kw": kw}
+            items = [st("IB", [], [{"name": "a", "ty": ["Integer"]}, {"name": "o", "ty": ["String"]}], optional=["o"],
+                        custom_init=ci),
+                     st("IS", ["IB"], [{"name": "b", "ty": ["String"]}]),
+                     st("IE", ["IB"], []),
+                     st("IT", ["IS"], [{"name": "c", "ty": ["Integer"], "default": "3"}], addl=False),
+                     st("IO", ["IB"], [{"name": "x", "ty": ["Integer"]}],
+                        custom_init={"params": [["a", None], ["x", "None"]], "forward": ["a"], "kw": False})]
+            cases.append({"suite": "stub", "mod": {"items": items}, "apd": True, "dflt": True, "seeds": [],
+                          "family": "inherited-custom-init"})
+    return cases
+
+
 # ------------------------------------------------------------------ two bases declaring the same field name
 
 MI_KINDS = ["req", "opt", "dflt", "const"]
@@ -1019,10 +1196,11 @@ def dump_hierarchy(mod, spec_by_name):
         return index[id(cls)]
 
     targets = []
+    nontree = []
     for name, it in spec_by_name.items():
         cls = getattr(mod, name)
         i = visit(cls)
-        # tree-shaped hierarchy only (the model's MRO is the depth-first pre-order)
+        # tree-shaped hierarchy: the tree model's MRO is the depth-first pre-order
         seen = []
 
         def walk(j):
@@ -1031,8 +1209,9 @@ def dump_hierarchy(mod, spec_by_name):
                 walk(b)
         walk(i)
         if len(seen) != len(set(seen)):
-            raise Unsupported(f"{name}: shared ancestor (diamond)")
+            nontree.append(i)       # shared ancestor: only the Define-based model (C3 linearisation) applies
         targets.append(i)
+    dump_hierarchy.nontree = nontree
     return table, targets
 
 
@@ -1061,6 +1240,11 @@ def runtime_view(mod, cls, it, spec_by_name):
         view["guard"] = None
     custom = "__init__" in cls.__dict__
     view["custom"] = custom
+    # a user-written __init__ further up the MRO: the constructor's behaviour is that function's business; the stub
+    # is compared with inspect.signature(cls) only
+    inherits_custom = any("__init__" in k.__dict__ for k in cls.__mro__[1:]
+                          if isinstance(k, type(Structure)) and k.__module__ == cls.__module__)
+    view["inherits_custom"] = inherits_custom
     if custom:
         fs = inspect.signature(cls.__dict__["__init__"])
         ps = list(fs.parameters.values())[1:]
@@ -1071,7 +1255,7 @@ def runtime_view(mod, cls, it, spec_by_name):
             "vararg": any(p.kind == p.VAR_POSITIONAL for p in ps), "kw": any(p.kind == p.VAR_KEYWORD for p in ps)}
     # behaviour of the real constructor: valid kwargs, then one missing / one extra
     view["behav"] = None
-    if not custom:
+    if not custom and not inherits_custom:
         try:
             kw = build_kwargs(mod, cls)
         except Exception as e:
@@ -1202,6 +1386,7 @@ def run_impl(case):
         try:
             table, targets = dump_hierarchy(mod, spec_by_name)
             res["table"], res["targets"] = table, targets
+            res["nontree"] = list(dump_hierarchy.nontree)
         except Unsupported as e:
             res["unsupported"] = str(e)
             return res
@@ -1230,6 +1415,11 @@ def run_impl(case):
                     if mn in c.__dict__ and inspect.isfunction(c.__dict__[mn]):
                         sigs[f"{it['name']}.{mn}"] = full_params_runtime(c.__dict__[mn])
         res["sigs"] = sigs
+        if text is not None:
+            try:
+                res["text"] = text_view(case, mod, text, spec_by_name, targets, res["runtime"], "stub" in res, sigs)
+            except Exception as e:      # the tie itself must not break a run: reported as a correspondence message
+                res["text_err"] = f"{type(e).__name__}: {e}"[:300]
     finally:
         TypedPyDefaults.additional_properties_default = saved_default
         sys.path[:] = saved_path
@@ -1268,6 +1458,408 @@ def check_abstraction(mod, spec_by_name):
     return problems
 
 
+# ------------------------------------------------------------------ the text tie (Sem/StubText.lean)
+
+import io
+import keyword
+import random
+import re
+import tokenize
+
+
+def ann_of_ast(node):
+    """Python expression AST -> the model's `Ann` (JSON); None = outside the modelled annotation language"""
+    def dotted(n):
+        parts = []
+        while isinstance(n, ast.Attribute):
+            parts.append(n.attr)
+            n = n.value
+        if isinstance(n, ast.Name):
+            parts.append(n.id)
+        elif isinstance(n, ast.Constant) and (n.value is True or n.value is False or n.value is None):
+            parts.append(repr(n.value))
+        else:
+            return None
+        return list(reversed(parts))
+    if isinstance(node, ast.Constant):
+        if node.value is Ellipsis:
+            return "..."
+        if node.value is None or node.value is True or node.value is False:
+            return {"n": [repr(node.value)]}
+        if isinstance(node.value, (str, int, float)):
+            return {"lit": 1}
+        return None
+    if isinstance(node, (ast.Name, ast.Attribute)):
+        d = dotted(node)
+        return None if d is None else {"n": d}
+    if isinstance(node, ast.Subscript):
+        h = dotted(node.value)
+        if h is None:
+            return None
+        items = node.slice.elts if isinstance(node.slice, ast.Tuple) else [node.slice]
+        args = [ann_of_ast(x) for x in items]
+        if not args or any(a is None for a in args):
+            return None
+        return {"s": [h, args]}
+    if isinstance(node, ast.List):
+        items = [ann_of_ast(x) for x in node.elts]
+        if any(a is None for a in items):
+            return None
+        return {"l": items}
+    return None
+
+
+def ann_of_text(text):
+    try:
+        return ann_of_ast(ast.parse(text, mode="eval").body)
+    except (SyntaxError, ValueError):
+        return None
+
+
+def _depth_after(text, depth=0):
+    """bracket depth after `text` (string literals skipped)"""
+    q = None
+    esc = False
+    for ch in text:
+        if q:
+            if esc:
+                esc = False
+            elif ch == "\\":
+                esc = True
+            elif ch == q:
+                q = None
+            continue
+        if ch in "'\"":
+            q = ch
+        elif ch in "([":
+            depth += 1
+        elif ch in ")]":
+            depth -= 1
+    return depth
+
+
+def scan_headers(text):
+    """every `def …: ...` / `class …:` header of the stub text, found by scanning lines (works on unparsable text)"""
+    lines = text.split("\n")
+    defs, classes = [], []
+    i = 0
+    while i < len(lines):
+        st = lines[i].strip()
+        if st.startswith("def "):
+            buf = [st]
+            depth = _depth_after(st)
+            j = i
+            while not (depth <= 0 and buf[-1].endswith("...")) and j + 1 < len(lines) and j - i < 80:
+                nxt = lines[j + 1].strip()
+                if nxt.startswith(("def ", "class ", "@")):
+                    break
+                j += 1
+                buf.append(nxt)
+                depth = _depth_after(nxt, depth)
+            defs.append("\n".join(buf))
+            i = j + 1
+            continue
+        if st.startswith("class ") and st.endswith(":"):
+            classes.append(st)
+        i += 1
+    return defs, classes
+
+
+def py_def_view(header):
+    """CPython's verdict on one header: {"name", "params"} or None"""
+    try:
+        tree = ast.parse(header)
+    except (SyntaxError, ValueError, MemoryError, RecursionError):
+        return None
+    if len(tree.body) != 1 or not isinstance(tree.body[0], ast.FunctionDef):
+        return None
+    fn = tree.body[0]
+    if len(fn.body) != 1 or not (isinstance(fn.body[0], ast.Expr) and isinstance(fn.body[0].value, ast.Constant)
+                                 and fn.body[0].value.value is Ellipsis):
+        return None
+    return {"name": fn.name, "params": full_params_ast(fn)}
+
+
+def py_class_view(header):
+    try:
+        tree = ast.parse(header + "\n    pass\n")
+    except (SyntaxError, ValueError):
+        return None
+    if len(tree.body) != 1 or not isinstance(tree.body[0], ast.ClassDef) or tree.body[0].keywords:
+        return None
+    return [tree.body[0].name, len(tree.body[0].bases)]
+
+
+_OPS = {"(", ")", "[", "]", ",", ":", "=", "*", "**", "/", ".", "->", "..."}
+_OK_KW = {"def", "class", "None", "True", "False"}
+_TRIPLE = ("'" * 3, '"' * 3)
+
+
+def header_tokens(header):
+    """token strings of a header (CPython's tokenizer); None if it does not tokenize"""
+    try:
+        toks = []
+        for t in tokenize.generate_tokens(io.StringIO(header).readline):
+            if t.type in (tokenize.NEWLINE, tokenize.NL, tokenize.ENDMARKER, tokenize.INDENT, tokenize.DEDENT,
+                          tokenize.COMMENT):
+                continue
+            toks.append((t.type, t.string))
+        return toks
+    except (tokenize.TokenError, SyntaxError, IndentationError):
+        return None
+
+
+def in_subset(header):
+    """is the header inside the token / expression subset that `Sem/StubText.lean` models exactly?"""
+    toks = header_tokens(header)
+    if toks is None:
+        return False
+    par = sq = 0
+    prev = None
+    for ty, sv in toks:
+        if ty == tokenize.NAME:
+            if keyword.iskeyword(sv) and sv not in _OK_KW:
+                return False
+            if not re.fullmatch(r"[A-Za-z_][A-Za-z0-9_]*", sv):
+                return False
+        elif ty == tokenize.NUMBER:
+            if not re.fullmatch(r"[0-9][0-9A-Za-z_.]*", sv):
+                return False
+        elif ty == tokenize.STRING:
+            if sv[0] not in "'\"" or sv.startswith(_TRIPLE) or "\n" in sv or (prev and prev[0] == tokenize.STRING):
+                return False
+        elif ty == tokenize.OP:
+            if sv not in _OPS:
+                return False
+            if sv == "(":
+                par += 1
+                if par > 1 or sq:
+                    return False
+            elif sv == ")":
+                par -= 1
+                if par < 0 or sq:
+                    return False
+            elif sv == "[":
+                sq += 1
+            elif sv == "]":
+                sq -= 1
+                if sq < 0:
+                    return False
+            elif sv in ("*", "**", "/"):
+                if sq or par != 1 or prev is None or prev[1] not in ("(", ","):
+                    return False
+            elif sv == ":" and sq:
+                return False
+        else:
+            return False
+        prev = (ty, sv)
+    return True
+
+
+MUT_OPS = ["swap-items", "move-kw", "toggle-default", "insert-marker", "del-token", "dup-token",
+           "swap-adjacent", "del-comma", "add-comma", "drop-item", "nest-default"]
+
+
+def mutate_header(rng, header):
+    """one token-level mutation of a real `def` header (the places signatures break: order, markers, commas,
+    defaults, brackets); text with one blank between tokens.  Returns (op, text) or None."""
+    toks = header_tokens(header)
+    if not toks or len(toks) < 6:
+        return None
+    ts = [sv for _, sv in toks]
+    try:
+        lo = ts.index("(")
+    except ValueError:
+        return None
+    depth, cuts, hi = 0, [lo], None
+    for k in range(lo, len(ts)):
+        if ts[k] in ("(", "["):
+            depth += 1
+        elif ts[k] in (")", "]"):
+            depth -= 1
+            if depth == 0:
+                hi = k
+                break
+        elif ts[k] == "," and depth == 1:
+            cuts.append(k)
+    if hi is None:
+        return None
+    bounds = cuts + [hi]
+    items = [ts[bounds[i] + 1:bounds[i + 1]] for i in range(len(bounds) - 1)]
+    op = rng.choice(MUT_OPS)
+    if op in ("swap-items", "move-kw", "toggle-default", "insert-marker", "drop-item", "add-comma"):
+        if len(items) < 2:
+            return None
+        items = [list(x) for x in items]
+        if op == "swap-items":
+            a, b = rng.sample(range(len(items)), 2)
+            items[a], items[b] = items[b], items[a]
+        elif op == "move-kw":
+            src = next((i for i, x in enumerate(items) if x[:1] in (["**"], ["*"], ["/"])), None)
+            if src is None:
+                items.insert(rng.randrange(len(items) + 1), rng.choice([["**", "kw"], ["*"], ["/"], ["*", "args"]]))
+            else:
+                x = items.pop(src)
+                items.insert(rng.randrange(len(items) + 1), x)
+        elif op == "toggle-default":
+            i = rng.randrange(len(items))
+            if "=" in items[i]:
+                items[i] = items[i][:items[i].index("=")]
+            else:
+                items[i] = items[i] + ["=", "None"]
+        elif op == "insert-marker":
+            items.insert(rng.randrange(len(items) + 1), [rng.choice(["*", "/", "**"])])
+        elif op == "drop-item":
+            items.pop(rng.randrange(len(items)))
+        elif op == "add-comma":
+            items.insert(rng.randrange(len(items) + 1), [])
+        inner = []
+        for i, x in enumerate(items):
+            inner += ([","] if i else []) + x
+        out = ts[:lo + 1] + inner + ts[hi:]
+    else:
+        out = list(ts)
+        cand = [k for k in range(len(out)) if out[k][:1] not in "'\"0123456789"]
+        if not cand:
+            return None
+        k = rng.choice(cand)
+        if op == "del-token":
+            del out[k]
+        elif op == "dup-token":
+            out.insert(k, out[k])
+        elif op == "swap-adjacent":
+            if k + 1 >= len(out) or out[k + 1][:1] in "'\"0123456789":
+                return None
+            out[k], out[k + 1] = out[k + 1], out[k]
+        elif op == "del-comma":
+            cs = [i for i, x in enumerate(out) if x == ","]
+            if not cs:
+                return None
+            del out[rng.choice(cs)]
+        elif op == "nest-default":
+            br = [i for i, x in enumerate(out) if x == "]"]
+            if not br:
+                return None
+            i = rng.choice(br)
+            out[i:i] = ["=", "None"]
+    return op, " ".join(out)
+
+
+def text_view(case, mod, text, spec_by_name, targets, runtime, parsed_ok, sigs=None):
+    """what goes to the Lean driver (`wire`) and CPython's own verdicts on the same header texts (`py`)"""
+    defs, classes = scan_headers(text)
+    key = case_key(case)
+    rng = random.Random(int(key, 16))
+    muts, mut_ops = [], []
+    pool = [d for d in defs if len(d) < 3000]
+    for _ in range(min(8, 2 * len(pool))):
+        m = mutate_header(rng, rng.choice(pool))
+        if m is not None and m[1] not in muts:
+            mut_ops.append(m[0])
+            muts.append(m[1])
+    wire = {"defs": defs, "muts": muts, "cls": classes, "classes": []}
+    py = {"defs": [py_def_view(d) for d in defs], "muts": [py_def_view(d) for d in muts],
+          "cls": [py_class_view(c) for c in classes], "mut_ops": mut_ops,
+          "defs_subset": [in_subset(d) for d in defs], "muts_subset": [in_subset(d) for d in muts],
+          "skipped": {}}
+    if not parsed_ok:
+        return {"wire": wire, "py": py}
+    try:
+        from typedpy.stubs.type_info_getter import get_type_info
+    except Exception as e:     # the generator was reorganised: no per-class tie, the header checks remain
+        py["skipped"]["*"] = f"get_type_info unavailable: {e}"
+        return {"wire": wire, "py": py}
+    try:
+        from typedpy.stubs.type_helpers import _get_bases_for_structure
+    except Exception:
+        _get_bases_for_structure = None
+    tree = ast.parse(text)
+    nodes = {n.name: n for n in tree.body if isinstance(n, ast.ClassDef)}
+    seg = lambda node: ast.get_source_segment(text, node)
+    lines = text.split("\n")
+    for ti, name in zip(targets, spec_by_name):
+        cls = getattr(mod, name)
+        node = nodes.get(name)
+        if node is None:
+            continue
+        meths = {}
+        for st in node.body:
+            if isinstance(st, ast.FunctionDef):
+                meths.setdefault(st.name, []).append(st)
+        if not meths:
+            continue        # `pass` body
+        anns, bad = [], None
+        for n, f in cls.get_all_fields_by_name().items():
+            if n in cls._constants:
+                continue
+            t = get_type_info(f, vars(mod), set())
+            a = ann_of_text(t) if isinstance(t, str) else None
+            if a is None:
+                bad = f"{n}: {t!r}"
+                break
+            anns.append([n, a])
+        if bad:
+            py["skipped"][name] = "annotation outside the modelled language: " + bad
+            continue
+        entry = {"i": ti, "anns": anns}
+        one = lambda mn: seg(meths[mn][0]) if len(meths.get(mn, [])) == 1 else None
+        entry["init"] = None if runtime[name]["custom"] else one("__init__")
+        for hk, mn in HELPERS.items():
+            entry[hk] = one(mn)
+        if _get_bases_for_structure is not None:
+            try:
+                bs = [b.split(".") for b in _get_bases_for_structure(cls, vars(mod), set())]
+                if all(re.fullmatch(r"[A-Za-z_][A-Za-z0-9_]*", x) for b in bs for x in b):
+                    entry["bases"] = bs
+                    entry["header"] = lines[node.lineno - 1].strip()
+            except Exception:
+                pass
+        names = {n for n, _ in anns}
+        entry["attrs"] = [[st.target.id, seg(st)] for st in node.body
+                          if isinstance(st, ast.AnnAssign) and isinstance(st.target, ast.Name) and st.target.id in names]
+        wire["classes"].append(entry)
+    # methods / functions the generator re-renders from inspect.signature: the runtime kinds, with the annotation
+    # and default expressions read off the stub (the marker placement `/`, `*` is what the model decides)
+    wire["meths"], py["meths"] = [], []
+    fnodes = {("", n.name): [n] for n in tree.body if isinstance(n, ast.FunctionDef)}
+    for cn, cnode in nodes.items():
+        for st in cnode.body:
+            if isinstance(st, ast.FunctionDef):
+                fnodes.setdefault((cn, st.name), []).append(st)
+    for qn, rt in sorted((sigs or {}).items()):
+        owner, fname = qn.split(".", 1)
+        ns = fnodes.get((owner, fname), [])
+        if isinstance(rt, str) or len(ns) != 1:
+            continue
+        fn = ns[0]
+        a = fn.args
+        pos = list(a.posonlyargs) + list(a.args)
+        dfl = [None] * (len(pos) - len(a.defaults)) + list(a.defaults)
+        by_name = {p.arg: (p.annotation, d) for p, d in zip(pos, dfl)}
+        by_name.update({p.arg: (p.annotation, d) for p, d in zip(a.kwonlyargs, a.kw_defaults)})
+        for p in (a.vararg, a.kwarg):
+            if p is not None:
+                by_name[p.arg] = (p.annotation, None)
+        ps, ok = [], True
+        for n, k, _d in rt:
+            if n not in by_name:
+                ok = False
+                break
+            an, d = by_name[n]
+            aj = None if an is None else ann_of_ast(an)
+            dj = None if d is None else ann_of_ast(d)
+            if (an is not None and aj is None) or (d is not None and dj is None):
+                ok = False
+                break
+            ps.append([n, k, aj, dj])
+        rj = None if fn.returns is None else ann_of_ast(fn.returns)
+        if not ok or (fn.returns is not None and rj is None):
+            continue
+        wire["meths"].append({"name": fname, "text": seg(fn), "ps": ps, "ret": rj})
+        py["meths"].append(qn)
+    return {"wire": wire, "py": py}
+
+
 # ------------------------------------------------------------------ driver line / judging helpers
 
 def line(case, impl):
@@ -1275,11 +1867,14 @@ def line(case, impl):
     if "table" in impl:
         l["classes"] = [{k: v for k, v in d.items() if k != "generated"} for d in impl["table"]]
         l["targets"] = impl["targets"]
+        l["nontree"] = impl.get("nontree", [])
     ex = impl.get("extra_imports")
     if ex and all(x.startswith("from ") and " import " in x for x in ex):
         # the (name, module) items, handed to the model in reverse order and doubled (a set has no order/multiplicity)
         items = [[x.split(" import ", 1)[1], x[len("from "):].split(" import ", 1)[0]] for x in ex]
         l["imports"] = list(reversed(items)) + items
+    if "text" in impl and "table" in impl:
+        l["text"] = impl["text"]["wire"]
     return l
 
 
@@ -1299,6 +1894,15 @@ def tags(case, impl, model):
         out.append("const-value:" + case["const_value"])
     if case.get("mi"):
         out.append("multi-base-same-field:" + case["mi"])
+    if case.get("enumvals"):
+        out.append("enum-values:" + case["enumvals"])
+    if case.get("diamond"):
+        out.append("diamond:" + case["diamond"])
+    if case.get("family"):
+        out.append("family:" + case["family"])
+    if case["apd"] != case["dflt"]:
+        out.append("apd!=runtime-default")
+    out += ["hierarchy:shared-ancestor"] * len(impl.get("nontree", []))
     if case.get("sig_site"):
         out += [f"sig-site:{case['sig_site']}", f"sig-default:{case['sig_default']}"]
     if "unbuildable" in impl:
@@ -1335,6 +1939,18 @@ def tags(case, impl, model):
         out.append("behav:" + ("run" if rv.get("behav") and rv["behav"].get("base_ok") else "skipped"))
     if impl.get("seeds"):
         out.append(f"hashseeds:{len(impl['seeds'])}")
+    tp = (impl.get("text") or {}).get("py")
+    mt = ((model.get("out") or {}) if isinstance(model, dict) else {}).get("text")
+    if tp and mt:
+        for i, p in enumerate(tp["muts"]):
+            lean_ok = bool(mt["muts"][i].get("lex")) and mt["muts"][i].get("parse") is not None
+            out.append(f"mutated-header:{tp['mut_ops'][i]}:" + ("accepted" if p is not None else "rejected")
+                       + ("" if tp["muts_subset"][i] or lean_ok == (p is not None) else ":outside-subset"))
+        out += ["real-header:" + ("parsed" if p is not None else "unparsable") for p in tp["defs"]]
+        for c in mt["classes"]:
+            out.append("text-tie:" + ("class" if c["domain"] else "outside-domain"))
+        out += ["text-tie:skipped(annotation-language)" for n in tp["skipped"] if n != "*"]
+        out += ["text-tie:method" for _ in mt.get("meths", [])]
     return out
 
 
